@@ -167,6 +167,10 @@ type c09Obs struct {
 	Delays     int64
 	Events     int
 	AuditNodes int
+	Zombies    int
+	Hung       int
+	WallMs     int64
+	PhaseMs    [5]int64
 }
 
 type c09Case struct {
@@ -245,7 +249,7 @@ func (c *c09Case) build(parent *c09Node, name string, depth int, k c09Knobs, rng
 	if err != nil {
 		c.t.Fatalf("build spawn %s: %v", name, err)
 	}
-	if depth >= k.Depth || len(c.all) > 26 {
+	if depth >= k.Depth || len(c.all) > 20 {
 		return
 	}
 	w := 1 + rng.Intn(k.Width)
@@ -372,6 +376,65 @@ func (c *c09Case) doOp(kind string, target *c09Node, rng *rand.Rand) {
 	c.lg.mu.Unlock()
 }
 
+// doOpWatched runs one operation under a watchdog. A framework call that does not
+// return is decided structurally: the goroutine dump must show the call parked
+// inside the framework twice, one second apart; otherwise the case is inconclusive.
+func (c *c09Case) doOpWatched(kind string, target *c09Node, rng *rand.Rand) bool {
+	done := make(chan struct{})
+	call := c.lg.seq.Load()
+	var opGid atomic.Int64
+	go func() {
+		defer close(done)
+		opGid.Store(verifrt.GoID())
+		c.doOp(kind, target, rng)
+	}()
+	select {
+	case <-done:
+		return true
+	case <-time.After(10 * time.Second):
+	}
+	frames := func() []string {
+		buf := make([]byte, 4<<20)
+		buf = buf[:runtime.Stack(buf, true)]
+		var out []string
+		for _, g := range strings.Split(string(buf), "\n\n") {
+			if strings.HasPrefix(strings.TrimSpace(g), fmt.Sprintf("goroutine %d [", opGid.Load())) {
+				out = append(out, g)
+			}
+		}
+		return out
+	}
+	first := frames()
+	select {
+	case <-done:
+		return true
+	case <-time.After(time.Second):
+	}
+	second := frames()
+	where := ""
+	for _, g := range second {
+		for _, fn := range []string{"restartSubtree", "(*PID).Shutdown", "freeChildren", "(*PID).Restart", "(*actorSystem).Kill", "SpawnChild"} {
+			if strings.Contains(g, "actor."+fn) && where == "" {
+				where = strings.Trim(fn, "(*)")
+			}
+		}
+	}
+	op := c09Op{Kind: kind, Target: target.name, Call: call, Ret: 1 << 60, Err: "hung"}
+	c.lg.mu.Lock()
+	c.lg.ops = append(c.lg.ops, op)
+	c.lg.mu.Unlock()
+	if where != "" && len(first) > 0 {
+		excerpt := second[0]
+		if len(excerpt) > 3000 {
+			excerpt = excerpt[:3000]
+		}
+		c.find("call-never-returned:"+kind+":parked-in-"+where, "%s(%s) issued at #%d has not returned after 11s (normal: milliseconds); target IsRunning=%v; its goroutine is parked inside the framework:\n%s", kind, target.name, call, target.pid.IsRunning(), excerpt)
+	} else {
+		c.find("watchdog", "%s(%s) did not return within 11s and no parked framework frame was identified", kind, target.name)
+	}
+	return false
+}
+
 func c09Idle(p *PID) bool {
 	return p.mailbox.IsEmpty() && p.systemMailbox.IsEmpty() && p.schedState.v.Load() == dispatchIdle
 }
@@ -413,7 +476,7 @@ func (c *c09Case) quiesce() bool {
 }
 
 // c09AuditTree checks the internal consistency of the tree structure.
-func c09AuditTree(x *tree, isHarness func(name string) bool) (findings []c09Finding, nodes int) {
+func c09AuditTree(x *tree) (findings []c09Finding, nodes int) {
 	x.mu.RLock()
 	defer x.mu.RUnlock()
 	add := func(sig, format string, args ...any) {
@@ -442,11 +505,6 @@ func c09AuditTree(x *tree, isHarness func(name string) bool) (findings []c09Find
 				if pn.descendants[id] != n {
 					add("parent-link-asymmetric", "node %s has parent %s, which does not list it as a descendant", n.name, pn.name)
 				}
-				if isHarness(n.name) {
-					if pp := pn.pid.Load(); pp == nil || !(pp.IsRunning() || pp.IsSuspended()) {
-						add("live-node-parent-not-running", "registered node %s: parent %s is not running", n.name, pn.name)
-					}
-				}
 			}
 		} else if n != x.rootNode {
 			add("orphan-node", "node %s has no parent and is not the root", n.name)
@@ -474,9 +532,6 @@ func c09AuditTree(x *tree, isHarness func(name string) bool) (findings []c09Find
 				add("watch-asymmetric", "%s is in watchees(%s) but %s is not in watchers(%s)", wn.name, n.name, n.name, wn.name)
 			}
 		}
-		if isHarness(n.name) && !(p.IsRunning() || p.IsSuspended()) {
-			add("registered-node-not-running", "node %s is registered but its actor is neither running nor suspended", n.name)
-		}
 	}
 	for name, n := range x.names {
 		if reg, ok := x.pids[n.id]; !ok || reg != n {
@@ -486,8 +541,10 @@ func c09AuditTree(x *tree, isHarness func(name string) bool) (findings []c09Find
 	return findings, nodes
 }
 
-func c09RunCase(t *testing.T, k c09Knobs, seed int64) c09Obs {
-	obs := c09Obs{Knobs: k}
+func c09RunCase(t *testing.T, k c09Knobs, seed int64) (obs c09Obs) {
+	obs = c09Obs{Knobs: k}
+	t0 := time.Now()
+	defer func() { obs.WallMs = time.Since(t0).Milliseconds() }()
 	rng := rand.New(rand.NewSource(seed))
 	prev := runtime.GOMAXPROCS(k.Procs)
 	defer runtime.GOMAXPROCS(prev)
@@ -507,6 +564,7 @@ func c09RunCase(t *testing.T, k c09Knobs, seed int64) c09Obs {
 	obs.Nodes = len(static)
 	// every PostStart has been handled before the operations begin
 	c.quiesce()
+	obs.PhaseMs[0] = time.Since(t0).Milliseconds()
 
 	// plan the operations
 	type planned struct {
@@ -578,15 +636,20 @@ func c09RunCase(t *testing.T, k c09Knobs, seed int64) c09Obs {
 			defer wg.Done()
 			<-start
 			for _, p := range plans[w] {
-				c.doOp(p.kind, p.target, wrng)
+				if !c.doOpWatched(p.kind, p.target, wrng) {
+					return // the operation never returned: its goroutine is abandoned
+				}
 				if wrng.Intn(3) == 0 {
 					runtime.Gosched()
 				}
 			}
 		}(w)
 	}
+	t1 := time.Now()
 	close(start)
 	wg.Wait()
+	obs.PhaseMs[1] = time.Since(t1).Milliseconds()
+	t2 := time.Now()
 
 	// asynchronous stops: wait for their visible completion (watchdog only)
 	c.lg.mu.Lock()
@@ -595,15 +658,20 @@ func c09RunCase(t *testing.T, k c09Knobs, seed int64) c09Obs {
 	for _, op := range ops {
 		if op.Async && op.Err == "" && op.Panic == "" {
 			n := c.nodes[op.Target]
+			if c.familyDisturbed(n.name) {
+				// a concurrent restart may drop the accepted message or revive the actor: no expectation
+				verifrt.WaitUntil(2*time.Second, func() bool { return n.act.live.Load() == 0 })
+				continue
+			}
 			if !verifrt.WaitUntil(30*time.Second, func() bool { return n.act.live.Load() == 0 }) {
-				// may legitimately stay alive when a concurrent restart revived it after the pill was consumed
-				if !c.familyDisturbed(n.name) {
-					obs.Watchdog = fmt.Sprintf("asynchronous %s was accepted but %s did not stop within 30s", op.String(), n.name)
-				}
+				obs.Watchdog = fmt.Sprintf("asynchronous %s was accepted but %s did not stop within 30s", op.String(), n.name)
 			}
 		}
 	}
+	obs.PhaseMs[2] = time.Since(t2).Milliseconds()
+	t3 := time.Now()
 	quiet := c.quiesce()
+	obs.PhaseMs[3] = time.Since(t3).Milliseconds()
 	if k.Noise > 0 {
 		_, obs.Delays = verifrt.StopNoise()
 	}
@@ -634,10 +702,14 @@ func c09RunCase(t *testing.T, k c09Knobs, seed int64) c09Obs {
 	c.lg.mu.Unlock()
 	sort.Slice(evs, func(i, j int) bool { return evs[i].Seq < evs[j].Seq })
 	obs.Events = len(evs)
-	c.judge(evs, ops, &obs, !sysStopped && quiet)
-
 	for _, op := range ops {
 		obs.Ops = append(obs.Ops, op.String())
+	}
+	tj := time.Now()
+	c.judge(evs, ops, &obs, !sysStopped && quiet)
+	obs.PhaseMs[4] = time.Since(tj).Milliseconds()
+
+	for _, op := range ops {
 		if op.Err == "" && op.Panic == "" && op.Kind != "spawn" && op.Kind != "restart" {
 			obs.StopsOK++
 		}
@@ -692,6 +764,28 @@ func (c *c09Case) judge(evs []c09Ev, ops []c09Op, obs *c09Obs, treeAvailable boo
 			}
 		}
 	}
+	// an asynchronous stop is in progress from its Tell until the target's PostStop ends
+	for i := range ops {
+		if ops[i].Async && ops[i].Err == "" {
+			ops[i].Ret = 1 << 60
+			for _, inc := range incs[ops[i].Target] {
+				if inc.postExit > ops[i].Call {
+					ops[i].Ret = inc.postExit
+					break
+				}
+			}
+		}
+	}
+	caseShape := "stops-only"
+	for _, op := range ops {
+		if op.Kind == "restart" {
+			caseShape = "with-restarts"
+			break
+		}
+		if op.Kind == "spawn" {
+			caseShape = "with-spawns"
+		}
+	}
 	// which operation created an incarnation
 	creator := func(node string, inc *c09Inc) *c09Op {
 		for i := range ops {
@@ -707,8 +801,65 @@ func (c *c09Case) judge(evs []c09Ev, ops []c09Op, obs *c09Obs, treeAvailable boo
 		}
 		return nil
 	}
+	inFamily := func(a, b string) bool { return a == b || c09IsAncestor(a, b) || c09IsAncestor(b, a) }
+	// shape of the concurrency around a node: what a signature is specific to
+	shape := func(node string, inc *c09Inc) string {
+		if inc != nil {
+			if op := creator(node, inc); op != nil && op.Kind == "spawn" {
+				return "spawn-racing-stop"
+			}
+		}
+		var fam []c09Op
+		restart, spawn := false, false
+		for _, op := range ops {
+			t := op.Target
+			if op.Kind == "system-stop" || !inFamily(t, node) {
+				continue
+			}
+			switch op.Kind {
+			case "restart":
+				restart = true
+			case "spawn":
+				spawn = true
+			default:
+				fam = append(fam, op)
+			}
+		}
+		if restart {
+			return "restart-in-family"
+		}
+		if spawn {
+			return "spawn-in-family"
+		}
+		for i := range fam {
+			for j := range fam {
+				if i != j && fam[i].Call < fam[j].Ret && fam[j].Call < fam[i].Ret {
+					return "overlapping-stops"
+				}
+			}
+		}
+		return "sequential"
+	}
+	hung := func(node string) bool {
+		for _, op := range ops {
+			if op.Err == "hung" && inFamily(op.Target, node) {
+				return true
+			}
+		}
+		return false
+	}
+	// an incarnation whose PreStart ran, that never got PostStop, and whose pid is flagged
+	// neither running nor suspended (a Restart that failed half-way documents "left
+	// non-running"): counted, not judged
+	zombie := func(node string) bool {
+		n := c.nodes[node]
+		return n != nil && n.act.live.Load() > 0 && !n.pid.IsRunning() && !n.pid.IsSuspended()
+	}
 	// (1) children first
 	for anc, al := range incs {
+		if hung(anc) {
+			continue
+		}
 		for ai, a := range al {
 			if a.postEnter == 0 {
 				continue
@@ -724,14 +875,15 @@ func (c *c09Case) judge(evs []c09Ev, ops []c09Op, obs *c09Obs, treeAvailable boo
 					if d.postExit != 0 && d.postExit < a.postEnter {
 						continue
 					}
-					how := "build"
-					if op := creator(desc, d); op != nil {
-						how = op.Kind + "-racing-stop"
-					}
+					how := shape(desc, d)
 					if d.postExit == 0 {
-						c.find("descendant-never-stopped:"+how, "%s incarnation %d entered PostStop at #%d while descendant %s incarnation %d (PreStart done at #%d) had not stopped and never did", anc, ai+1, a.postEnter, desc, di+1, d.preExit)
+						if di == len(dl)-1 && zombie(desc) {
+							obs.Zombies++
+							continue
+						}
+						c.find("descendant-never-stopped:"+how, "%s incarnation %d entered PostStop at #%d while descendant %s incarnation %d (PreStart done at #%d) had not stopped and never did; ops=%v", anc, ai+1, a.postEnter, desc, di+1, d.preExit, c09OpsOn(ops, desc))
 					} else {
-						c.find("descendant-poststop-after-ancestor:"+how, "%s incarnation %d entered PostStop at #%d but descendant %s incarnation %d (PreStart done at #%d) completed PostStop only at #%d", anc, ai+1, a.postEnter, desc, di+1, d.preExit, d.postExit)
+						c.find("descendant-poststop-after-ancestor:"+how, "%s incarnation %d entered PostStop at #%d but descendant %s incarnation %d (PreStart done at #%d) completed PostStop only at #%d; ops=%v", anc, ai+1, a.postEnter, desc, di+1, d.preExit, d.postExit, c09OpsOn(ops, desc))
 					}
 				}
 			}
@@ -748,7 +900,7 @@ func (c *c09Case) judge(evs []c09Ev, ops []c09Op, obs *c09Obs, treeAvailable boo
 	c.mu.Unlock()
 	for _, n := range all {
 		l := incs[n.name]
-		if len(l) == 0 {
+		if len(l) == 0 || hung(n.name) {
 			continue
 		}
 		last := l[len(l)-1]
@@ -760,9 +912,14 @@ func (c *c09Case) judge(evs []c09Ev, ops []c09Op, obs *c09Obs, treeAvailable boo
 				continue
 			}
 		}
+		if zombie(n.name) {
+			obs.Zombies++
+			continue
+		}
+		how := shape(n.name, last)
 		node, registered := tr.node(n.pid.ID())
 		if registered && node.value() != n.pid {
-			c.find("registered-under-other-pid", "%s is registered with a different pid object", n.name)
+			c.find("registered-under-other-pid:"+how, "%s is registered with a different pid object", n.name)
 		}
 		var resolved *PID
 		err, pan := c09Guard(func() error {
@@ -775,10 +932,6 @@ func (c *c09Case) judge(evs []c09Ev, ops []c09Op, obs *c09Obs, treeAvailable boo
 		}
 		if alive {
 			if !registered {
-				how := "build"
-				if op := creator(n.name, last); op != nil {
-					how = op.Kind
-				}
 				c.find("live-actor-not-registered:"+how, "%s is alive (PreStart at #%d, no PostStop, IsRunning=%v) but not in the tree at quiescence; ops=%v", n.name, last.preEnter, n.pid.IsRunning(), c09OpsOn(ops, n.name))
 			}
 			// every ancestor must be alive
@@ -789,32 +942,37 @@ func (c *c09Case) judge(evs []c09Ev, ops []c09Op, obs *c09Obs, treeAvailable boo
 				pl := incs[p.name]
 				pend := pl[len(pl)-1].postExit
 				op := creator(n.name, last)
-				switch {
-				case op != nil && op.Call > pend:
+				if op != nil && op.Call > pend {
 					// revived by a harness call issued after the ancestor had completely stopped: not judged
-				case op != nil:
-					c.find("live-actor-under-stopped-ancestor:"+op.Kind+"-racing-stop", "%s is alive (PreStart at #%d by %s) although ancestor %s completed PostStop at #%d", n.name, last.preEnter, op.String(), p.name, pend)
-				default:
-					c.find("live-actor-under-stopped-ancestor:no-concurrent-op", "%s is alive (PreStart at #%d) although ancestor %s completed PostStop at #%d; ops=%v", n.name, last.preEnter, p.name, pend, c09OpsOn(ops, p.name))
+					break
 				}
+				by := "build"
+				if op != nil {
+					by = op.String()
+				}
+				c.find("live-actor-under-stopped-ancestor:"+how, "%s is alive (PreStart at #%d by %s, IsRunning=%v) although ancestor %s completed PostStop at #%d; ops=%v", n.name, last.preEnter, by, n.pid.IsRunning(), p.name, pend, c09OpsOn(ops, n.name))
 				break
 			}
 		} else {
 			if registered {
-				c.find("stopped-actor-registered:quiescent", "%s has stopped (PostStop done at #%d) but is still in the tree at death-watch quiescence; ops=%v", n.name, last.postExit, c09OpsOn(ops, n.name))
+				c.find("stopped-actor-registered:quiescent:"+how, "%s has stopped (PostStop done at #%d) but is still in the tree at death-watch quiescence; ops=%v", n.name, last.postExit, c09OpsOn(ops, n.name))
 			}
 			if err == nil && resolved != nil && pan == "" {
 				state := "not-running"
 				if resolved.IsRunning() {
 					state = "running"
 				}
-				c.find("resolvable-after-stop:quiescent-"+state, "%s has stopped (PostStop done at #%d) but ActorOf still resolves it at death-watch quiescence (same pid=%v); ops=%v", n.name, last.postExit, resolved == n.pid, c09OpsOn(ops, n.name))
+				c.find("resolvable-after-stop:quiescent-"+state+":"+how, "%s has stopped (PostStop done at #%d) but ActorOf still resolves it at death-watch quiescence (same pid=%v); ops=%v", n.name, last.postExit, resolved == n.pid, c09OpsOn(ops, n.name))
 			}
 		}
 	}
 	// (3) structure audit
-	fs, nodes := c09AuditTree(tr, func(name string) bool { _, ok := c.nodes[name]; return ok })
+	fs, nodes := c09AuditTree(tr)
 	obs.AuditNodes = nodes
+	for i := range fs {
+		fs[i].Sig += ":" + caseShape
+		fs[i].Detail += fmt.Sprintf("; ops=%v", obs.Ops)
+	}
 	c.mu.Lock()
 	c.finds = append(c.finds, fs...)
 	c.mu.Unlock()
